@@ -4,7 +4,7 @@
 (* tokens/s, 8 = 8 tokens/s (one token per tick).  Factored configurations:  *)
 (*   fixed    one limit for the whole behaviour, monotone clock: every        *)
 (*            invariant including the bound over all events                   *)
-(*   setlimit SetLimitAt among the calls, finite limits                      *)
+(*   setlimit SetLimitAt among the calls, finite limits (quick: and Inf)     *)
 (*   inf      SetLimitAt between a finite limit and Inf                       *)
 (*   back     the clock may go back between calls                            *)
 (*   zero     limit 0 and burst 0                                            *)
@@ -17,5 +17,6 @@ NoRates  == {}
 RatesFin == {1, 2, 8}
 RatesSet == {2, 8}
 RatesInf == {2, Inf}
+RatesSetInf == {2, 8, Inf}
 RatesZero == {0, 2}
 =============================================================================
